@@ -173,6 +173,11 @@ func (w *world) taskFn(i int) func() {
 			panic(errors.New(fmt.Sprintf("task %d error", i)))
 		case 3:
 			panic(panicStruct{i, "struct"})
+		case 4:
+			// panic(nil) with the pre-go1.21 semantics golib's own go.mod (go 1.18) selects:
+			// recover() returns nil.  It is a panic by any reading, so it must neither kill
+			// the process nor leak the slot; there is no value that could reach the handler.
+			panic(nil)
 		}
 	}
 }
@@ -201,7 +206,7 @@ func (w *world) submitter(l *goz.Limiter) {
 			w.mu.Lock()
 			w.submitted[i] = true
 			w.subState = fmt.Sprintf("go:%d", i)
-			if k := w.tasks[i].panicK; k != 0 {
+			if k := w.tasks[i].panicK; k != 0 && k != 4 {
 				w.expected = append(w.expected, panicText(i, k))
 			}
 			w.mu.Unlock()
@@ -573,7 +578,7 @@ func gen(r *sim.Rng, tier string) *sim.Case {
 	for i := 0; i < nScript; i++ {
 		t := sim.Op{Op: "Task", K: r.N(3)}
 		if r.Pct(panicPct) {
-			t.V = r.Range(1, 3)
+			t.V = r.Range(1, 4)
 		}
 		if r.Pct(blockPct) {
 			t.D = r.Range(1, 2)
@@ -603,6 +608,7 @@ func TestWorker(t *testing.T) {
 	if *fOut == "" {
 		t.Skip("not invoked by the driver")
 	}
+	os.Setenv("GODEBUG", "panicnil=1") // see task kind 4
 	if f, err := os.OpenFile(os.DevNull, os.O_WRONLY, 0); err == nil {
 		os.Stdout = f // goz prints recovered panics when no handler is set
 	}
@@ -621,11 +627,10 @@ func TestWorker(t *testing.T) {
 			fmt.Fprintln(os.Stderr, "replay:", err)
 			os.Exit(2)
 		}
+		// a case without a recorded schedule (e.g. the crash file of a killed worker) is
+		// re-run from its scheduler seed: the same choices as in the original run
 		script := c.Schedule
-		if script == nil {
-			script = []int16{}
-		}
-		v, info := runCase(t, c, script, *fStrict)
+		v, info := runCase(t, c, script, *fStrict && script != nil)
 		c.Schedule = info.schedule
 		c.End = info.end
 		c.LogHash = sim.Hex(info.hash)
